@@ -99,7 +99,7 @@ def run(chk: Check) -> None:
     _param_tables(chk, cf)
     _tree_dispatch(chk, cf)
     _uuid_resolution(chk, cf)
-    codec_state(chk, "R07.5")
+    codec_state(chk, "R07.5", ("auxdata", "serialization"))
     no_result_caches(chk, "R07.5")
     value_passthrough(chk, "R07.5")
     from .purity import decoded_passthrough
